@@ -153,6 +153,12 @@ func scC15End(w *World, a Args, rng *rand.Rand) error {
 		go A.CallT("notify", 91, 300*time.Millisecond)
 		gated = w.Rec.WaitParked("rd.msg.pre@server", time.Second)
 	}
+	if a.Bool("partial") {
+		// the server has the beginning of a frame in hand (its reader is inside the frame body) when the end comes
+		pc.AddRule(&Rule{Dir: C2S, Frame: 0, Pos: "cut-payload", Style: "hole"})
+		go A.CallT("notify", 92, 200*time.Millisecond)
+		time.Sleep(20 * time.Millisecond)
+	}
 	if a.Bool("inflight") {
 		// a frame is on its way to the main loop when the end comes
 		go A.CallT("notify", 90, 200*time.Millisecond)
@@ -165,6 +171,8 @@ func scC15End(w *World, a Args, rng *rand.Rand) error {
 		pc.Kill(cause)
 	case "srvcancel":
 		w.CancelSrvConn(1)
+	case "halffin":
+		pc.HalfCloseToServer() // the peer is done sending (FIN) but its side of the connection stays open and unread
 	}
 	// wait for the connection handler to return on the server
 	dl := time.Now().Add(patience(4 * time.Second))
